@@ -209,6 +209,17 @@ def short_contour_model(desc, exc, feats):
     return None
 
 
+def _pause_export_monitor():
+    """Switch the export contract off for a deliberately interrupted call; -> resume()"""
+    from vmon.monitors import export as emon
+    saved = emon._ctx
+    emon._ctx = None
+
+    def resume():
+        emon._ctx = saved
+    return resume
+
+
 def run_case(ctx, idx):
     import dclab
     import dclab.definitions as dfn
@@ -259,6 +270,31 @@ def run_case(ctx, idx):
             sel = int(m.sum()) if filtered else n
             case = {"src": desc, "mask": np.flatnonzero(m).tolist(), "features": feats,
                     "filtered": filtered, "logs": lg, "tables": tb}
+            if rng.random() < 0.15:
+                # an earlier attempt of the same export was interrupted by the user (Ctrl-C
+                # while the k-th feature was written); whatever it left behind, the repeated
+                # export below must contain exactly the selected events
+                k_int = int(rng.integers(1, 6))
+                orig_sf = writer.RTDCWriter.store_feature
+                calls = [0]
+
+                def interrupted(self_, *a_, **kw_):
+                    calls[0] += 1
+                    if calls[0] == k_int:
+                        raise KeyboardInterrupt()
+                    return orig_sf(self_, *a_, **kw_)
+                writer.RTDCWriter.store_feature = interrupted
+                try:
+                    _mon = _pause_export_monitor()
+                    try:
+                        ds.export.hdf5(out, features=feats, filtered=filtered, logs=lg,
+                                       tables=tb, override=True)
+                    except BaseException:
+                        ctx.count("exports_interrupted_before_the_repeat")
+                    finally:
+                        _mon()
+                finally:
+                    writer.RTDCWriter.store_feature = orig_sf
             try:
                 ds.export.hdf5(out, features=feats, filtered=filtered, logs=lg, tables=tb,
                                override=True)
